@@ -1,26 +1,480 @@
 /-
   C01 — every emitted signature is a valid RRSIG over exactly the published DNSKEY set.
+
+  Every theorem is for EVERY token oracle `tok`, every starting state `s`, every hash function and
+  software verifier (`ext`).  What is proved is what the TOOL adds on top of the primitives: which
+  octets it asks to be signed, with which key and mechanism, over which key set, with which field
+  values, and that nothing leaves `signBundle` without the software verifier having accepted it over
+  exactly the published set.  Unforgeability of the signature scheme and collision resistance of the
+  hash are assumptions outside the theorems (DESIGN §4/C01 "Limits").
+
+  Layout
+    §1  one signature (`signKeys_spec`), its to-be-signed octets = RFC 4034 §3.1.8.1, what reaches the token
+    §2  one bundle (`C01_main`), all bundles (`C01_all_bundles`), response-side re-validation
+    §3  completion under explicit well-formedness (`C01_completes_partial`)
+    §4  ECDSA on the pinned tree (finding F4)
+    §5  non-vacuity examples
 -/
 import Kskm.Signer
 import KskmProofs.Lemmas.TokM
+import KskmProofs.Lemmas.Base64
+import KskmProofs.Lemmas.SignerKeys
+import KskmProofs.Lemmas.SignerInv
+import KskmProofs.Lemmas.SignerRun
+import KskmProofs.Lemmas.SignerEc
 import KskmProofs.C14
+import KskmProofs.C15
+import KskmProofs.C02
 namespace Kskm.C01
 
 /-- uniqueness by public key: adding never creates two entries with the same public key text -/
 theorem ktsAdd_unique (ttl : Int) (keys : List Key) (k : Key)
     (h : keys.Pairwise (fun a b => a.publicKey ≠ b.publicKey)) :
-    (ktsAdd ttl keys k).Pairwise (fun a b => a.publicKey ≠ b.publicKey) := by
-  unfold ktsAdd
-  split
-  · exact h
-  · rename_i hn
-    rw [List.pairwise_append]
-    refine ⟨h, by simp, ?_⟩
-    intro a ha b hb
-    simp only [List.mem_singleton] at hb
-    subst hb
-    simp only [List.any_eq_true, decide_eq_true_eq, not_exists, not_and] at hn
-    have := hn a ha
-    split <;> simpa using this
+    (ktsAdd ttl keys k).Pairwise (fun a b => a.publicKey ≠ b.publicKey) :=
+  Kskm.ktsAdd_unique ttl keys k h
+
+/-! ## §1 One signature -/
+
+/-- What C01 states about one signature `σ` made by the composite key `sk` over the key set `keys`
+    for a bundle with the given inception / expiration under KSK policy `pol`.  Witnesses: `dnsKey`
+    the record of the signing key AS PUBLISHED in `keys`, `raw` the to-be-signed octets, `sigBytes`
+    the signature octets, `pk` the public key text of the token key. -/
+structure SigSpec (ext : Externals) (inception expiration : Int) (pol : KskPolicy) (keys : List Key)
+    (sk : CompositeKey) (σ : Signature) (dnsKey : Key) (raw sigBytes : Bytes) (pk : String) : Prop where
+  /-- the signing key is published in the set, under its identifier, exactly once -/
+  published : ktsGet keys sk.dns.keyIdentifier = .ok (some dnsKey)
+  pubkey : sk.p11.publicKey = some pk
+  /-- `raw` is `make_raw_rrsig` of the signature's own fields over exactly `keys` -/
+  tbs : makeRawRrsig { σ with signatureData := "" } keys = .ok raw
+  /-- the software verifier accepted the signature octets over `raw` under the token key -/
+  verified : ext.verify sk.dns.algorithm pk raw sigBytes = .valid
+  sigData : σ.signatureData = Base64.encode sigBytes
+  inception : σ.inception = inception
+  expiration : σ.expiration = expiration
+  ttl : σ.ttl = pol.ttl
+  originalTtl : σ.originalTtl = pol.ttl
+  signersName : σ.signersName = pol.signersName
+  root : pol.signersName = "."
+  labels : σ.labels = 0
+  typeCovered : σ.typeCovered = 48
+  algorithm : σ.algorithm = sk.dns.algorithm
+  keyIdentifier : σ.keyIdentifier = sk.dns.keyIdentifier
+  /-- the tag of the signing key as published: the revoked tag when it is published revoked -/
+  keyTag : σ.keyTag = dnsKey.keyTag
+  /-- every key of the signed set carries the policy TTL -/
+  keysTtl : ∀ k ∈ keys, k.ttl = pol.ttl
+
+/-- **One signature.** Whenever `_sign_keys` returns a signature — for any token — the software
+    verifier accepted it over `make_raw_rrsig` of its own fields and exactly `keys`, all fields are
+    the bundle's / the policy's / the published key's, and exactly ONE token operation was issued: a
+    `C_Sign` on the key's private handle with mechanism and data from `_format_data_for_signing`
+    over those octets. -/
+theorem signKeys_spec (ext : Externals) (bundle : Bundle) (keys : List Key) (sk : CompositeKey)
+    (pol : KskPolicy) (tok : Token) (s s' : TokState) (σ : Signature)
+    (h : signKeys ext bundle keys sk pol tok s = (.ok σ, s')) :
+    ∃ dnsKey raw sigBytes pk,
+      SigSpec ext bundle.inception bundle.expiration pol keys sk σ dnsKey raw sigBytes pk ∧
+      ∃ d hdl, formatDataForSigning ext.hash sk.p11 raw sk.dns.algorithm = .ok d ∧
+        sk.p11.privHandle = some hdl ∧
+        tok s.count (.sign sk.p11.module sk.p11.slot hdl d.mechanism d.data) = .sig sigBytes ∧
+        s'.count = s.count + 1 ∧
+        s'.log = (.sign sk.p11.module sk.p11.slot hdl d.mechanism d.data, .sig sigBytes) :: s.log := by
+  obtain ⟨httl, dnsKey, labels, raw, sigBytes, pk, hget, hl, hraw, hsign, hpk, _, hv, rfl⟩ := signKeys_ok h
+  obtain ⟨hroot, rfl⟩ := dndepth_ok hl
+  obtain ⟨d, hdl, hd, hh, _, _, hans, rfl⟩ := signUsingP11_ok hsign
+  exact ⟨dnsKey, raw, sigBytes, pk,
+    ⟨hget, hpk, hraw, hv, rfl, rfl, rfl, rfl, rfl, rfl, hroot, rfl, rfl, rfl, rfl, rfl, httl⟩,
+    d, hdl, hd, hh, hans, rfl, rfl⟩
+
+/-- **The octets are the RFC's.** The to-be-signed octets of a `SigSpec` are the RFC 4034 §3.1.8.1
+    octets — RRSIG RDATA (type covered 48, the algorithm, 0 labels, the policy TTL, the bundle's
+    expiration and inception in seconds, the published key's tag), signer name root, then the DNSKEY
+    RRs of exactly `keys` in canonical order (§6.3) — whatever canonical arrangement `l` an
+    independent implementation picks; and every field fits its wire field. -/
+theorem sigSpec_rfc4034 {ext : Externals} {inc exp : Int} {pol : KskPolicy} {keys : List Key}
+    {sk : CompositeKey} {σ : Signature} {dnsKey : Key} {raw sigBytes : Bytes} {pk : String}
+    (h : SigSpec ext inc exp pol keys sk σ dnsKey raw sigBytes pk) :
+    ∃ rdatas, keys.mapM keyToRdata = .ok rdatas ∧
+      (∀ l, C14.CanonicalOrder l rdatas →
+        raw = C14.rfc4034TBS 48 sk.dns.algorithm 0 pol.ttl.toNat (tsSeconds exp).toNat
+                (tsSeconds inc).toNat dnsKey.keyTag.toNat l) ∧
+      sk.dns.algorithm < 256 ∧ 0 ≤ pol.ttl ∧ pol.ttl < 2 ^ 32 ∧
+      0 ≤ tsSeconds exp ∧ tsSeconds exp < 2 ^ 32 ∧ 0 ≤ tsSeconds inc ∧ tsSeconds inc < 2 ^ 32 ∧
+      0 ≤ dnsKey.keyTag ∧ dnsKey.keyTag < 2 ^ 16 := by
+  obtain ⟨rdatas, hrd, _, _, halg, _, httl, hexp, hinc, htag, _, hraw⟩ := makeRawRrsig_ok h.tbs
+  simp only [h.typeCovered, h.algorithm, h.labels, h.originalTtl, h.expiration, h.inception, h.keyTag,
+    inRange, Bool.and_eq_true, decide_eq_true_eq] at halg httl hexp hinc htag hraw
+  refine ⟨rdatas, hrd, ?_, halg, httl.1, by omega, hexp.1, by omega, hinc.1, by omega, htag.1, by omega⟩
+  intro l hl
+  rw [hraw]
+  exact C14.makeRawRrsig_eq_rfc _ _ _ _ _ _ _ rdatas l hl
+
+/-- **What reaches the token** (with C15): for host hashing and RSA the full-modulus-length
+    EMSA-PKCS1-v1_5 block of the matching digest of `raw`; for host hashing and ECDSA the matching
+    digest of `raw`; with hashing on the token, `raw` itself, untouched, and the hashing mechanism. -/
+theorem token_input_spec (hash : Hasher) (key : P11Key) (raw : Bytes) (alg : Nat) (d : DataToSign)
+    (h : formatDataForSigning hash key raw alg = .ok d) :
+    (key.hashUsingHsm ≠ some true → (alg = 8 ∨ alg = 10) →
+      ∃ pk pub digest, key.publicKey = some pk ∧ rsaDecode pk alg = .ok pub ∧
+        hash (if alg = 8 then .sha256 else .sha512) raw = some digest ∧ d.mechanism = ckmRsaX509 ∧
+        d.data = emsaBlock (pub.bits / 8)
+          ((if alg = 8 then digestInfoSha256 else digestInfoSha512) ++ digest)) ∧
+    (key.hashUsingHsm ≠ some true → (alg = 13 ∨ alg = 14) →
+      d.mechanism = ckmEcdsa ∧ hash (if alg = 13 then .sha256 else .sha384) raw = some d.data) ∧
+    (key.hashUsingHsm = some true → alg ∈ [5, 8, 10, 13, 14] →
+      d.data = raw ∧ some d.mechanism = mechanismFor true alg) :=
+  ⟨fun hk ha => C15.raw_rsa_is_emsa hash key raw alg d hk ha h,
+   fun hk ha => C15.raw_ecdsa_is_digest hash key raw alg d hk ha h,
+   fun hk ha => let r := C15.hash_on_token_untouched hash key raw alg d hk ha h; ⟨r.1, r.2.1⟩⟩
+
+/-! ## §2 One bundle, all bundles -/
+
+/-- **C01, one bundle.** Whenever `signBundle` returns a response bundle `rb` — any token, any
+    state — every signature `σ` of `rb` was made by a composite key `sk` fetched for a name listed
+    under `sign` of the slot's action, and satisfies `SigSpec` with `keys = rb.keys`: the software
+    verifier accepted it over `make_raw_rrsig σ rb.keys`, i.e. over exactly the published set, with
+    the response bundle's inception and expiration, the configured TTL, signer name root, zero labels
+    and the tag of the signing key as published.  (`sigSpec_rfc4034`: those octets are the RFC's.) -/
+theorem C01_main (ext : Externals) (mods : List P11Module) (cfg : SignerConfig) (slot : Nat)
+    (bundle rb : Bundle) (tok : Token) (s s' : TokState)
+    (h : signBundle ext mods cfg slot bundle tok s = (.ok rb, s')) :
+    ∀ σ ∈ rb.signatures, ∃ act name sk dnsKey raw sigBytes pk,
+      cfg.actions.lookup slot = some act ∧ name ∈ act.sign ∧ C02.KskRecord cfg name pk sk.dns ∧
+      SigSpec ext rb.inception rb.expiration cfg.kskPolicy rb.keys sk σ dnsKey raw sigBytes pk ∧
+      dnsKey ∈ rb.keys := by
+  intro σ hσ
+  obtain ⟨act, pub, rev, revoked, signing, s1, s2, s3, hact, _, _, _, hsign, _, hsigs, hfin⟩ := signBundle_ok h
+  obtain ⟨_, hrb, _⟩ := finishBundle_ok hfin
+  obtain ⟨new, e, h1, _, _, _⟩ := signAll_ok hsigs
+  simp only [List.nil_append] at e
+  rw [e] at hσ
+  obtain ⟨sk, hsk, sa, sb, hrun⟩ := h1 σ hσ
+  obtain ⟨dnsKey, raw, sigBytes, pk, hspec, _⟩ := signKeys_spec ext bundle rb.keys sk cfg.kskPolicy tok sa sb σ hrun
+  obtain ⟨name, hn, pk', hpk', hrec⟩ := (C02.fetchedFor_of_ok hsign).2.1 sk hsk
+  have : pk' = pk := by
+    have := hspec.pubkey
+    rw [hpk'] at this
+    exact Option.some.inj this
+  subst this
+  have hi : rb.inception = bundle.inception := by rw [hrb]
+  have he : rb.expiration = bundle.expiration := by rw [hrb]
+  rw [hi, he]
+  exact ⟨act, name, sk, dnsKey, raw, sigBytes, pk', hact, hn, hrec, hspec, (ktsGet_some_mem hspec.published).1⟩
+
+/-- **C01, all bundles** — for every request, with any number of bundles: every signature of every
+    response bundle is as in `C01_main`, for the slot that is the bundle's 1-based position. -/
+theorem C01_all_bundles (ext : Externals) (mods : List P11Module) (cfg : SignerConfig) (req : Request)
+    (rbs : List Bundle) (tok : Token) (s s' : TokState)
+    (h : signBundles ext mods cfg req tok s = (.ok rbs, s')) :
+    rbs.length = req.bundles.length ∧
+    ∀ i rb, rbs[i]? = some rb → ∀ σ ∈ rb.signatures, ∃ act name sk dnsKey raw sigBytes pk,
+      cfg.actions.lookup (i + 1) = some act ∧ name ∈ act.sign ∧ C02.KskRecord cfg name pk sk.dns ∧
+      SigSpec ext rb.inception rb.expiration cfg.kskPolicy rb.keys sk σ dnsKey raw sigBytes pk ∧
+      dnsKey ∈ rb.keys := by
+  unfold signBundles at h
+  obtain ⟨hlen, hpos⟩ := signBundlesFrom_ok h
+  refine ⟨hlen, ?_⟩
+  intro i rb hi
+  have hlt : i < req.bundles.length := by
+    rw [← hlen]
+    exact (List.getElem?_eq_some_iff.mp hi).1
+  obtain ⟨rb', sa, sb, h1, h2⟩ := hpos i req.bundles[i] (List.getElem?_eq_getElem hlt)
+  rw [hi] at h1
+  cases h1
+  rw [Nat.add_comm] at h2
+  exact C01_main ext mods cfg (i + 1) _ rb tok sa sb h2
+
+/-- **Verified again.** With `validate_signatures` on in the response policy, a returned bundle has
+    passed `validate_signatures` (the reader-side validation: key lookup by identifier in the
+    published set, public key from the PUBLISHED record, `make_raw_rrsig` over the published set). -/
+theorem C01_verified_again (ext : Externals) (mods : List P11Module) (cfg : SignerConfig) (slot : Nat)
+    (bundle rb : Bundle) (tok : Token) (s s' : TokState)
+    (hv : cfg.responsePolicy.validateSignatures = true)
+    (h : signBundle ext mods cfg slot bundle tok s = (.ok rb, s')) :
+    validateSignatures ext.verify rb = .ok () := by
+  obtain ⟨act, pub, rev, revoked, signing, s1, s2, s3, _, _, _, _, _, _, _, hfin⟩ := signBundle_ok h
+  obtain ⟨_, _, hc⟩ := finishBundle_ok hfin
+  unfold checkValidSignatures at hc
+  simp only [hv, Bool.not_true, Bool.false_eq_true, ↓reduceIte] at hc
+  split at hc
+  · simp [violation] at hc
+  · simp at hc
+  · assumption
+
+/-! ## §3 Completion
+
+Full statement (DESIGN §4/C01 `C01_completes`), NOT proved here:
+
+    for a token described at store level (modules → slots → objects with attributes) on which every
+    key named by the schema is configured, inside its validity window and present with parameters
+    matching the configuration, a healthy signature scheme, per bundle equal ZSK / signing-key
+    algorithm sets and times that pack into 32 bits,  `signBundles` returns `ok`.
+
+Proved: `C01_completes_partial`, which starts AFTER the three `_fetch_keys` calls of a slot — their
+results are hypotheses — and shows that everything the signer itself does then goes through.
+Missing for the full statement: the forward (success) direction of `fetchKeys` / `loadPkcs11Key` /
+`getP11Key` / `findInSlots` / `p11ObjectToPublicKey` / `validateDnskeyMatchesKsk` from a store-level
+description of the token (the lookup side belongs to C15/C04; only the inversion direction of
+`fetchKeys` is proved in `Lemmas/SignerInv.lean`), and the lifting from one slot to `signBundles`. -/
+
+/-- Structural well-formedness of one slot once the keys are fetched: what must hold of the fetched
+    signing keys `signing` and of the assembled key set `keys` for the signer to complete. -/
+structure WellFormed (ext : Externals) (cfg : SignerConfig) (bundle : Bundle) (keys : List Key)
+    (signing : List CompositeKey) (tok : Token) (from_ : Nat) : Prop where
+  /-- the signer name is the root (the only one `dn2wire` implements) -/
+  root : cfg.kskPolicy.signersName = "."
+  /-- the request bundle has keys -/
+  zsks : bundle.keys ≠ []
+  /-- ZSK and signing-key algorithm sets agree -/
+  algs : ∀ a, a ∈ bundle.keys.map (·.algorithm) ↔ a ∈ signing.map (·.dns.algorithm)
+  /-- a label names one algorithm (two configured names for one label do not disagree) -/
+  idAlg : ∀ a ∈ signing, ∀ b ∈ signing, a.dns.keyIdentifier = b.dns.keyIdentifier →
+    a.dns.algorithm = b.dns.algorithm
+  /-- no two published records share an identifier -/
+  noDupIds : hasDupIds keys = false
+  /-- per signing key: published under its identifier with its public key and algorithm; times,
+      TTL and tag pack into their fields and all RDATAs are decodable (`make_raw_rrsig` succeeds);
+      an asymmetric key with a private handle whose data formatting succeeds; and the scheme is
+      healthy from operation `from_` on: the token answers a signature the verifier accepts -/
+  ready : ∀ sk ∈ signing, ∃ dnsKey pk raw d hdl,
+    dnsKey ∈ keys ∧ dnsKey.keyIdentifier = sk.dns.keyIdentifier ∧ dnsKey.publicKey = pk ∧
+    dnsKey.algorithm = sk.dns.algorithm ∧
+    sk.p11.publicKey = some pk ∧
+    publicKeyFromKey { sk.dns with publicKey := pk } = .ok () ∧
+    makeRawRrsig (sigTemplate bundle sk cfg.kskPolicy 0 dnsKey.keyTag) keys = .ok raw ∧
+    sk.p11.keyType ≠ .aes ∧ sk.p11.keyType ≠ .des3 ∧
+    formatDataForSigning ext.hash sk.p11 raw sk.dns.algorithm = .ok d ∧
+    sk.p11.privHandle = some hdl ∧
+    ∀ n, from_ ≤ n → ∃ b, tok n (.sign sk.p11.module sk.p11.slot hdl d.mechanism d.data) = .sig b ∧
+      ext.verify sk.dns.algorithm pk raw b = .valid
+
+/-- **Completion (partial: from the fetched keys on).** If the slot has an action, the three fetches
+    returned keys, the revoked forms exist, and the slot is `WellFormed`, then `signBundle` returns a
+    bundle — including the response-side re-validation when it is switched on. -/
+theorem C01_completes_partial (ext : Externals) (mods : List P11Module) (cfg : SignerConfig) (slot : Nat)
+    (bundle : Bundle) (tok : Token) (s s1 s2 s3 : TokState) (act : SchemaAction)
+    (pub rev signing : List CompositeKey) (revoked : List Key)
+    (hact : cfg.actions.lookup slot = some act)
+    (hpub : fetchKeys ext mods cfg bundle true act.publish tok s = (.ok pub, s1))
+    (hrev : fetchKeys ext mods cfg bundle true act.revoke tok s1 = (.ok rev, s2))
+    (hrevoked : rev.mapM (fun ck => ck.dns.asRevoked) = .ok revoked)
+    (hsign : fetchKeys ext mods cfg bundle false act.sign tok s2 = (.ok signing, s3))
+    (hwf : WellFormed ext cfg bundle
+      (slotFold cfg.kskPolicy.ttl (pub.map (·.dns)) revoked (signing.map (·.dns)) bundle.keys)
+      signing tok s3.count) :
+    ∃ rb s', signBundle ext mods cfg slot bundle tok s = (.ok rb, s') := by
+  have httl := (C02.slotFold_spec cfg.kskPolicy.ttl (pub.map (·.dns)) revoked (signing.map (·.dns))
+    bundle.keys).ttl
+  have hready : ∀ sk ∈ signing, SignerReady ext bundle cfg.kskPolicy
+      (slotFold cfg.kskPolicy.ttl (pub.map (·.dns)) revoked (signing.map (·.dns)) bundle.keys)
+      sk tok s3.count := by
+    intro sk hsk
+    obtain ⟨dnsKey, pk, raw, d, hdl, h1, h2, h3, h4, h5, h6, h7, h8, h9, h10, h11, h12⟩ := hwf.ready sk hsk
+    exact ⟨dnsKey, pk, raw, d, hdl, h1, h2, h3, h4, h5, h6, h7, h8, h9, h10, h11, h12⟩
+  obtain ⟨sigs, s4, hsigs, hval, halgs, hne⟩ :=
+    signAll_completes ext bundle cfg.kskPolicy _ signing tok s3 hwf.root httl hwf.noDupIds hready
+  rw [signBundle_run hact hpub hrev hrevoked hsign hsigs]
+  have hsame : sameSet (bundle.keys.map (·.algorithm)) (sigs.map (·.algorithm)) = true := by
+    rw [sameSet_iff]
+    intro a
+    rw [hwf.algs a]
+    exact (halgs hwf.idAlg a).symm
+  have hsig_ne : signing ≠ [] := by
+    intro he
+    cases hb : bundle.keys with
+    | nil => exact hwf.zsks hb
+    | cons k r =>
+      have := (hwf.algs k.algorithm).mp (by simp [hb])
+      simp [he] at this
+  have hkeys_ne : slotFold cfg.kskPolicy.ttl (pub.map (·.dns)) revoked (signing.map (·.dns)) bundle.keys ≠ [] := by
+    cases hs : signing with
+    | nil => exact absurd hs hsig_ne
+    | cons sk r =>
+      obtain ⟨dnsKey, _, _, _, _, h1, _⟩ := hwf.ready sk (by simp [hs])
+      rw [← hs]
+      exact List.ne_nil_of_mem h1
+  have hvalid := validateSignatures_of_each ext.verify
+    { id := bundle.id, inception := bundle.inception, expiration := bundle.expiration,
+      keys := slotFold cfg.kskPolicy.ttl (pub.map (·.dns)) revoked (signing.map (·.dns)) bundle.keys,
+      signatures := sigs } hkeys_ne (hne hsig_ne) hwf.noDupIds hval
+  have hfin : finishBundle ext cfg bundle
+      (slotFold cfg.kskPolicy.ttl (pub.map (·.dns)) revoked (signing.map (·.dns)) bundle.keys) sigs =
+      .ok ⟨bundle.id, bundle.inception, bundle.expiration,
+        slotFold cfg.kskPolicy.ttl (pub.map (·.dns)) revoked (signing.map (·.dns)) bundle.keys, sigs, none⟩ := by
+    have hcv : checkValidSignatures ext.verify
+        ⟨bundle.id, bundle.inception, bundle.expiration,
+          slotFold cfg.kskPolicy.ttl (pub.map (·.dns)) revoked (signing.map (·.dns)) bundle.keys, sigs, none⟩
+        cfg.responsePolicy = .ok () := by
+      unfold checkValidSignatures
+      rw [hvalid]
+      split <;> rfl
+    simp only [finishBundle, hsame, Bool.not_true, Bool.false_eq_true, ↓reduceIte, hcv]
+  exact ⟨_, s4, by rw [hfin]⟩
+
+/-! ## §4 ECDSA on the pinned tree (DESIGN §5 F4, known finding)
+
+`_p11_object_to_public_key` publishes, for an EC token key, `Base64.encode point` where `point` is
+the SEC 1 uncompressed point INCLUDING its leading `0x04` octet: the only size check is
+`(len(point) − 1) · 8 / 2 = 256` (or 384), which forces 65 (or 97) octets.  RFC 6605 §4 wants the
+bare `x ‖ y`, 64 (or 96) octets.  So the DNSKEY published for an ECDSA KSK is not an RFC 6605 key and
+no independent validator accepts the RRSIG — C01 as stated fails for algorithms 13 / 14 on the
+pinned tree.  What DOES hold is `C01_ecdsa_partial`. -/
+
+/-- the size check of `_p11_object_to_public_key` forces the prefixed length -/
+theorem ec_point_length_forced (point : Bytes) :
+    ((point.length - 1) * 8 / 2 = 256 → point.length = 65) ∧
+    ((point.length - 1) * 8 / 2 = 384 → point.length = 97) := by
+  constructor <;> intro h <;> omega
+
+/-- the text published for a point that passes the size check decodes to the point itself
+    (65 / 97 octets), never to the 64 / 96 octets RFC 6605 prescribes -/
+theorem C01_ecdsa_published_key_not_rfc6605 (point : Bytes)
+    (want : Nat) (hw : want = 256 ∨ want = 384) (hlen : (point.length - 1) * 8 / 2 = want) :
+    ∃ decoded, Base64.decode (Base64.encode point) = some decoded ∧
+      decoded.length * 8 / 2 ≠ want ∧ (decoded.length = 65 ∨ decoded.length = 97) := by
+  refine ⟨point, Base64.decode_encode point, ?_, ?_⟩
+  · rcases hw with rfl | rfl <;> omega
+  · rcases hw with rfl | rfl
+    · left; omega
+    · right; omega
+
+/-- **For every token**: whenever the token says the object is an EC key and
+    `_p11_object_to_public_key` yields a key text, that text is the base64 of 65 or 97 octets — it
+    decodes to a key that is NOT of the RFC 6605 size (64 / 96) for either curve. -/
+theorem C01_ecdsa_published_key_general (path : String) (slot handle : Nat) (tok : Token)
+    (s s' : TokState) (txt : String)
+    (h : p11ObjectToPublicKey path slot handle tok s = (.ok (some txt), s'))
+    (hkt : tok s.count (.getAttr path slot handle ["KEY_TYPE"]) = .attrs [.num ckkEc]) :
+    ∃ decoded, Base64.decode txt = some decoded ∧ (decoded.length = 65 ∨ decoded.length = 97) ∧
+      decoded.length ≠ 64 ∧ decoded.length ≠ 96 := by
+  obtain ⟨point, rfl, hl⟩ := ec_published_text h hkt
+  exact ⟨point, Base64.decode_encode point, hl, by omega, by omega⟩
+
+/-- a token holding a P-256 key whose `CKA_EC_POINT` is the bare SEC 1 point `04 ‖ x ‖ y` -/
+def ecWitnessToken : Token := fun _ op =>
+  match op with
+  | .getAttr _ _ _ ["KEY_TYPE"] => .attrs [.num ckkEc]
+  | .getAttr _ _ _ ["EC_POINT"] => .attrs [.bytes (4 :: List.replicate 64 0x11)]
+  | .getAttr _ _ _ ["EC_PARAMS"] => .attrs [.bytes ecOidP256]
+  | _ => .other
+
+/-- **Concrete witness.** On that token the model (as the code) publishes a 65-octet key for
+    algorithm 13: `_p11_object_to_public_key` answers the base64 of the point with its `0x04`. -/
+theorem C01_ecdsa_witness :
+    (p11ObjectToPublicKey "m" 0 7 ecWitnessToken {}).1
+      = .ok (some (Base64.encode (4 :: List.replicate 64 0x11))) ∧
+    (4 :: List.replicate 64 (0x11 : UInt8)).length = 65 ∧
+    Base64.decode (Base64.encode (4 :: List.replicate 64 0x11)) = some (4 :: List.replicate 64 0x11) := by
+  refine ⟨?_, by simp, Base64.decode_encode _⟩
+  simp [p11ObjectToPublicKey, askOk, ask, bind, ecWitnessToken, attr1, attrBytes, ckkEc, ckkRsa,
+    ecOidP256, ecOidP384, pure, TokM.err, TokM.fail]
+
+/-- **What holds for ECDSA** (and every other algorithm): the tool's own verifier accepted each
+    emitted signature over exactly the published set, under the key text it derived from the token
+    — the same statement as `C01_main`; and with host hashing the token was handed the SHA-256 /
+    SHA-384 digest of those octets with `CKM_ECDSA`. -/
+theorem C01_ecdsa_partial (ext : Externals) (mods : List P11Module) (cfg : SignerConfig) (slot : Nat)
+    (bundle rb : Bundle) (tok : Token) (s s' : TokState)
+    (h : signBundle ext mods cfg slot bundle tok s = (.ok rb, s')) :
+    ∀ σ ∈ rb.signatures, (σ.algorithm = 13 ∨ σ.algorithm = 14) →
+      ∃ sk dnsKey raw sigBytes pk,
+        SigSpec ext rb.inception rb.expiration cfg.kskPolicy rb.keys sk σ dnsKey raw sigBytes pk ∧
+        ext.verify σ.algorithm pk raw sigBytes = .valid ∧
+        (sk.p11.hashUsingHsm ≠ some true → ∀ d,
+          formatDataForSigning ext.hash sk.p11 raw σ.algorithm = .ok d →
+          d.mechanism = ckmEcdsa ∧
+          ext.hash (if σ.algorithm = 13 then .sha256 else .sha384) raw = some d.data) := by
+  intro σ hσ halg
+  obtain ⟨act, name, sk, dnsKey, raw, sigBytes, pk, _, _, _, hspec, _⟩ :=
+    C01_main ext mods cfg slot bundle rb tok s s' h σ hσ
+  refine ⟨sk, dnsKey, raw, sigBytes, pk, hspec, by rw [hspec.algorithm]; exact hspec.verified, ?_⟩
+  intro hk d hd
+  exact C15.raw_ecdsa_is_digest ext.hash sk.p11 raw σ.algorithm d hk halg hd
+
+/-! ## §5 Non-vacuity -/
+
+section Examples
+
+/-- a token that signs anything with the octets `[1, 2, 3]` and a verifier that accepts exactly that -/
+private def exTok : Token := fun _ op => match op with | .sign .. => .sig [1, 2, 3] | _ => .other
+private def exExt : Externals :=
+  { hash := fun _ d => some d, verify := fun _ _ _ sg => if sg = [1, 2, 3] then .valid else .invalid }
+private def exKsk : Key := ⟨"ksk", 1, 172800, 257, 3, 8, "AwEAAQ=="⟩
+private def exZsk : Key := ⟨"zsk", 2, 172800, 256, 3, 8, "AwEAAg=="⟩
+private def exSk : CompositeKey :=
+  { p11 := { label := "ksk", keyType := .rsa, keyClass := 3, hashUsingHsm := some true,
+             publicKey := some "AwEAAQ==", module := "m", slot := 0, privHandle := some 5 },
+    dns := exKsk }
+private def exBundle : Bundle := ⟨"b1", 1700000000000000, 1701000000000000, [exZsk], [], none⟩
+
+/-- `signKeys` succeeds on a concrete instance, so the hypothesis of `signKeys_spec` is satisfiable -/
+example : (match signKeys exExt exBundle [exKsk, exZsk] exSk {} exTok {} with
+    | (.ok σ, s') => decide (σ.keyTag = 1 ∧ σ.labels = 0 ∧ σ.signatureData = Base64.encode [1, 2, 3] ∧
+        s'.count = 1)
+    | _ => false) = true := by decide +kernel
+
+example : (4 :: List.replicate 64 (0x11 : UInt8)).length = 65 ∧ (65 - 1) * 8 / 2 = 256 := by decide
+
+/-- a token with one RSA key pair labelled "ksk" (handle 5, modulus `80 01`, e = 65537) that signs
+    everything with `[1, 2, 3]` -/
+private def exTok2 : Token := fun _ op =>
+  match op with
+  | .findObjects _ _ _ => .handles [5]
+  | .getAttr _ _ _ ["KEY_TYPE"] => .attrs [.num 0]
+  | .getAttr _ _ _ ["MODULUS"] => .attrs [.bytes [0x80, 1]]
+  | .getAttr _ _ _ ["PUBLIC_EXPONENT"] => .attrs [.bytes [1, 0, 1]]
+  | .sign .. => .sig [1, 2, 3]
+  | _ => .other
+private def exCfg : SignerConfig :=
+  { kskKeys := [("k1", { label := "ksk", algorithm := 8, validFrom := 0, rsaSize := some 16,
+                         rsaExponent := some 65537, hashUsingHsm := some true })],
+    actions := [(1, { publish := ["k1"], sign := ["k1"] })] }
+private def exMods : List P11Module := [{ label := "hsm", path := "m", sessions := [0] }]
+
+/-- a whole slot runs to `ok` on a concrete instance (schema action, fetches from the token, key set,
+    one signature, algorithm agreement, re-validation): the hypothesis of `C01_main`,
+    `C01_verified_again` and of the C02 slot theorems is satisfiable -/
+example : (match signBundle exExt exMods exCfg 1 exBundle exTok2 {} with
+    | (.ok rb, s') => decide (rb.keys.length = 2 ∧ rb.signatures.length = 1 ∧ rb.id = "b1" ∧
+        (∀ k ∈ rb.keys, k.ttl = 172800) ∧ 0 < s'.count)
+    | _ => false) = true := by decide +kernel
+
+/-- the composite key that token yields for the private fetch of "k1" -/
+private def exPriv : P11Key :=
+  { label := "ksk", keyType := .rsa, keyClass := 3, hashUsingHsm := some true,
+    publicKey := some "AwEAAYAB", module := "m", slot := 0, privHandle := some 5, pubHandle := some 5 }
+private def exDns : Key := ⟨"ksk", 34572, 172800, 257, 3, 8, "AwEAAYAB"⟩
+private def exKeys : List Key := slotFold 172800 [exDns] [] [exDns] [exZsk]
+private def exRaw : Bytes :=
+  match makeRawRrsig (sigTemplate exBundle ⟨exPriv, exDns⟩ exCfg.kskPolicy 0 34572) exKeys with
+  | .ok r => r
+  | _ => []
+
+/-- the hypotheses of `C01_completes_partial` are satisfiable: `WellFormed` holds of the key that
+    token returns for the example schema slot, with the key set the slot assembles -/
+example : WellFormed exExt exCfg exBundle exKeys [⟨exPriv, exDns⟩] exTok2 0 where
+  root := rfl
+  zsks := by decide
+  algs := by intro a; simp [exBundle, exZsk, exDns]
+  idAlg := by decide
+  noDupIds := by decide +kernel
+  ready := by
+    intro sk hsk
+    simp only [List.mem_singleton] at hsk
+    subst hsk
+    have hraw : makeRawRrsig (sigTemplate exBundle ⟨exPriv, exDns⟩ exCfg.kskPolicy 0 34572) exKeys
+        = .ok exRaw := by
+      have hs : (makeRawRrsig (sigTemplate exBundle ⟨exPriv, exDns⟩ exCfg.kskPolicy 0 34572)
+          exKeys).toOption.isSome = true := by decide +kernel
+      unfold exRaw
+      cases h : makeRawRrsig (sigTemplate exBundle ⟨exPriv, exDns⟩ exCfg.kskPolicy 0 34572) exKeys with
+      | error e => rw [h] at hs; simp [Except.toOption] at hs
+      | ok r => rfl
+    refine ⟨exDns, "AwEAAYAB", exRaw, ⟨exRaw, 64, true⟩, 5, by decide +kernel, rfl, rfl, rfl, rfl,
+      by decide +kernel, hraw, by decide, by decide, rfl, rfl, ?_⟩
+    intro n _
+    exact ⟨[1, 2, 3], rfl, rfl⟩
+
+end Examples
 
 end Kskm.C01
